@@ -5,8 +5,10 @@ import (
 	"fmt"
 	"sort"
 	"strings"
+	"time"
 
 	"github.com/ovn-org/libovsdb/ovsdb"
+	"github.com/ovn-org/libovsdb/server"
 
 	"verifharness/dyn"
 	"verifharness/emit"
@@ -17,8 +19,8 @@ import (
 func init() { drivers["C07"] = driveC07 }
 
 type monReq struct {
-	Cols                          []string // nil = omitted (all columns)
-	HasSelect                     bool
+	Cols                            []string // nil = omitted (all columns)
+	HasSelect                       bool
 	Initial, Insert, Delete, Modify bool
 }
 
@@ -559,6 +561,14 @@ func driveC07(o opts) error {
 				m.p.close()
 			}
 		}
+		// a monitor set up while a transaction is between notifying the monitors and committing
+		// must learn of that transaction (in its initial contents or by a notification)
+		if g.Chance(0.4) {
+			if msg := c07RacingSetup(lab, writer, sc, ci); msg != "" {
+				fail("%s", msg)
+			}
+			w.Count("racing monitor set-up")
+		}
 		writer.close()
 		lab.close()
 		term := fmt.Sprintf("C07.mk (%s)\n   [%s]\n   [%s]", dyn.CoqSchema(syms, sc), strings.Join(monTerms, ";\n    "), strings.Join(txnTerms, ";\n    "))
@@ -566,4 +576,89 @@ func driveC07(o opts) error {
 			Nontrivial: nontrivial, Class: fmt.Sprintf("mons%d", nm), Oracle: oracle})
 	}
 	return w.Flush()
+}
+
+// c07RacingSetup pauses a transaction at the verif point transact.notified, sends a monitor
+// request from another connection meanwhile, and checks that the new monitor knows the
+// transaction's row afterwards.
+func c07RacingSetup(lab *srvLab, writer *peer, sc dyn.Schema, ci int) string {
+	p2, err := lab.dial()
+	if err != nil {
+		return ""
+	}
+	defer p2.close()
+	reached, release := make(chan struct{}), make(chan struct{})
+	armed := true
+	server.VerifHook = func(point string) {
+		if point == "transact.notified" && armed {
+			armed = false
+			close(reached)
+			<-release
+		}
+	}
+	defer func() { server.VerifHook = nil }()
+	u := gen.UUIDn(950000 + ci)
+	op := TOp{Kind: "insert", Table: "Q", UUID: u, Row: map[string]val.Val{"name": val.VA(val.Str(fmt.Sprintf("racing%d", ci)))}}
+	txDone := make(chan bool, 1)
+	go func() {
+		res, committed, _ := writer.transactor(sc.Name)([]ovsdb.Operation{op.operation(lab.db)})
+		txDone <- committed && len(res) > 0
+	}()
+	select {
+	case <-reached:
+	case ok := <-txDone:
+		server.VerifHook = nil
+		if !ok {
+			return ""
+		}
+		return "the verif pause point transact.notified was not reached by a committed transaction"
+	case <-time.After(5 * time.Second):
+		return "transaction did not reach transact.notified"
+	}
+	reqs := map[string]interface{}{}
+	for _, t := range sc.Tables {
+		reqs[t.Name] = map[string]interface{}{}
+	}
+	monDone := make(chan *ovsdb.TableUpdates2, 1)
+	go func() {
+		var reply ovsdb.TableUpdates2
+		if err := p2.c.Call("monitor_cond", []interface{}{sc.Name, json.RawMessage(`"race"`), reqs}, &reply); err != nil {
+			monDone <- nil
+			return
+		}
+		monDone <- &reply
+	}()
+	time.Sleep(30 * time.Millisecond)
+	close(release)
+	var dump *ovsdb.TableUpdates2
+	select {
+	case dump = <-monDone:
+	case <-time.After(5 * time.Second):
+		return "monitor request sent during a transaction is not answered"
+	}
+	select {
+	case <-txDone:
+	case <-time.After(5 * time.Second):
+		return "transaction does not finish after the pause"
+	}
+	if dump == nil {
+		return "monitor request sent during a transaction fails"
+	}
+	known := false
+	if ru, ok := (*dump)["Q"][u]; ok && ru.Initial != nil {
+		known = true
+	}
+	_, v2 := p2.take(`"race"`)
+	for _, tu := range v2 {
+		if ru, ok := tu["Q"][u]; ok && ru.Insert != nil {
+			if known {
+				return "a monitor set up during a transaction got the transaction's row both in its initial contents and as an insert"
+			}
+			known = true
+		}
+	}
+	if !known {
+		return fmt.Sprintf("a monitor set up while a transaction was between notifying the monitors and committing never learns of its row %s", u)
+	}
+	return ""
 }
